@@ -1719,11 +1719,21 @@ def plan(tier: str, seed: int) -> list[dict]:
 
 
 def _reach():
+    """Entry counters of the mechanism functions, under their module-qualified names (several are called parse / verify)."""
+    import importlib
+
     from ..hooks import Reach
 
     r = Reach()
     for d in MECH:
-        r.watch_path(d)
+        modname, _, attr = d.partition(":")
+        try:
+            obj = importlib.import_module(modname)
+            for part in attr.split("."):
+                obj = obj.__dict__[part] if isinstance(obj, type) else getattr(obj, part)
+        except (ImportError, AttributeError, KeyError):
+            continue
+        r.watch(modname.replace("btclib.", "") + ":" + attr, obj)
     r.start()
     return r
 
@@ -2052,8 +2062,11 @@ def finalize(m: dict, tier: str) -> list[str]:
     for need in ("text:nesting>=10^4", "text:checksum-recomputed", "binary:hex-text", "stream:compact", "stream:truncate@field", "stream:extended"):
         if not cl.get(need):
             out.append(f"input class {need} never evaluated")
-    for f in ("read_exactly", "fields_from_json_object", "list_from_json_array", "int_from_json_number", "parse", "verify_", "batch_verify_",
-              "verify", "verify_proof", "dsa_verify", "ssa_verify", "BasicBlockFilter.match_any"):
+    for f in ("utils:read_exactly", "utils:fields_from_json_object", "utils:list_from_json_array", "utils:int_from_json_number", "var_int:parse",
+              "psbt.psbt:_assert_map_count", "descriptors.miniscript:parse", "descriptors.miniscript:_tree_eval", "descriptors.descriptors:_parse_tree",
+              "ecc.dsa:verify_", "ecc.ssa:verify_", "ecc.ssa:batch_verify_", "ecc.bms:verify", "bip322:verify", "ecc.dleq:verify_proof",
+              "block.merkle_proof:verify", "script.engine.script:dsa_verify", "script.engine.tapscript:ssa_verify",
+              "block.block_filter:BasicBlockFilter.match_any"):
         if not r.get(f):
             out.append(f"mechanism {f} never entered")
     if not m["selftest"].get("descriptor_checksums.json"):
